@@ -61,7 +61,7 @@ def run(tier):
         except BaseException as ex:     # re-raised in the main thread
             box['ex'] = ex
     th = threading.Thread(target=mc)
-    per = 8 if tier == 'quick' else 150
+    per = 8 if tier == 'quick' else 120
     with mp.get_context('fork').Pool(16) as pool:
         th.start()          # after the workers are forked: the model check runs while they drive the real tools
         parts = pool.map(rzxdrv.campaign, [(sd * 131 + k, per, wd, tier) for k in range(16)])
